@@ -49,7 +49,23 @@ AUTH_TRUSTED = COMMON_TRUSTED + [
     "SHA-256/HMAC by Base/Sha256.lean (oracle; only the digest length is proved), CBOR COSE key encoding by Base/Cbor.lean",
 ]
 
+CLIENT_TRUSTED = AUTH_TRUSTED + [
+    "modelled by hand: Client::{register, authenticate, map_rk, registration_extension_ctap2_input, auth_extension_ctap2_input, prf input conversion}, CollectedClientData serialisation (serde_json field order and string escaping), the attestation object, public_key_der_from_cose_key, base64url, From<StatusCode> for WebauthnError (Model/Client.lean, Base/Base64.lean); RpIdVerifier as in C01; URL parsing / IDNA are inputs read back from the implementation (origin string, host, ASCII form)",
+]
+
 PROPS = {
+    "C11": {
+        "modules": ["PasskeyVerif.Props.C11"],
+        "props_files": ["PasskeyVerif/Props/C11.lean"],
+        "translators": [tr_flags, tr_psl],
+        "harness": [["gen", "C11"]],
+        "exhaustive": True,
+        "trusted": CLIENT_TRUSTED,
+        "assumptions": ["the store reports its capability truthfully and performs each call atomically"],
+        "level_text": "Kernel-checked for every request, store content, capability, user-validation behaviour and fault schedule (not only the finite product): map_rk is the WebAuthn table; whatever make_credential hands to the store holds the user handle exactly when discoverable under the store's capability (full: as requested; non-discoverable only: never; forced: always) and carries the request's rk option; a resident key asked of a store that only holds non-discoverable credentials never succeeds and saves nothing (CTAP2_ERR_UNSUPPORTED_OPTION once the earlier steps pass), at CTAP level and through the client; a successful Client::register sent the mapped rk, stored the handle iff discoverable and reports credProps exactly when requested and exactly that; a successful assertion (CTAP and client) returns the user handle the credential used stores. Tied to the code by the complete product of the statement run through the real client and authenticator (registration, assertion without and with an allow list naming the new credential) with byte-exact comparison of responses, traces and stores; the Spec clauses are evaluated on the implementation's observations.",
+        "level_note": "Trusted: Lean kernel; axioms propext/Classical.choice/Quot.sound; the hand models of client and authenticator (compared byte for byte on the whole product); the instrumented store; Spec = the statement's tables (webauthnRk, discoverableUnder, refusesResidentKeys).",
+        "rule": "complete enumeration: store (contract store with each of the 3 capabilities, plus the shipped map and slot stores) x residentKey (absent, discouraged, preferred, required) x requireResidentKey (2) x credProps (absent, false, true), plus absent authenticatorSelection, each = register + assert without allow list + assert naming the new credential; CTAP-level rk (2) x the same 5 stores = make + get + get naming the new credential.",
+    },
     "C08": {
         "modules": ["PasskeyVerif.Props.C08"],
         "props_files": ["PasskeyVerif/Props/C08.lean"],
